@@ -24,7 +24,8 @@ RULE = ("case = 1..4 PDO maps (layouts as in C05: any integer type / REAL / BOOL
         "transmit, deliver a raw frame with a generated id, reconfigure a consumer map to another COB-ID "
         "and re-subscribe, add a callback, remote_request (from the consumer or from a third node that took "
         "the configuration from the device after the consumer's save()), wait_for_reception with a second thread "
-        "delivering (or nothing delivered), callbacks that block for 5..50 ms. Oracle: per-map reception model (data, timestamp, callback "
+        "delivering (or nothing delivered), callbacks that block for 5..50 ms, and re-mapping of a PDO (clear() + the same objects in another order "
+        "on every node) between variable lookups through every route. Oracle: per-map reception model (data, timestamp, callback "
         "counts) + the C05 bit-field model for values; transmit = exactly (COB-ID, current data); RTR frame "
         "iff enabled and RTR allowed. Non-trivial = >= 2 maps and a reception with a non-byte-aligned layout "
         "or a colliding / reconfigured id; distinct = canonical JSON.")
@@ -75,17 +76,19 @@ def setup_maps(node, maps, consumer, from_od=False):
     return out
 
 
-def lookup(node, pm, m, j, via):
+def lookup(node, pm, m, j, via, pos=None):
+    """Variable of object j of map m; `pos` is its current position in the mapping (j unless re-mapped)."""
     index = 0x2000 + 16 * m + j
+    pos = j if pos is None else pos
     if via == "pos":
-        return pm[j]
+        return pm[pos]
     if via == "index":
         return pm[index]
     if via == "name":
         return pm[f"m{m}f{j}"]
     if via == "node_name":
         return node.tpdo[f"m{m}f{j}"]
-    return node.tpdo[m + 1][j]
+    return node.tpdo[m + 1][pos]
 
 
 def run_case(case) -> Outcome:
@@ -135,6 +138,7 @@ def run_case(case) -> Outcome:
             lst.append(o)
             o += e["len"]
         offs.append(lst)
+    order = [list(range(len(mp["layout"]))) for mp in maps]      # object ids in mapping order (remap op)
     c_cob = [mp["cob"] for mp in maps]
     c_subscribed = [({mp["cob"]} if mp.get("enabled", True) else set()) for mp in maps]
     c_data = [None] * len(maps)
@@ -208,7 +212,7 @@ def run_case(case) -> Outcome:
             if kind == "write":
                 j = op["j"] % len(maps[m]["layout"])
                 e = maps[m]["layout"][j]
-                var = lookup(prod, pmaps[m], m, j, op.get("via", "pos"))
+                var = lookup(prod, pmaps[m], m, j, op.get("via", "pos"), order[m].index(j))
                 var.raw = op["v"]
                 mask = (1 << e["len"]) - 1
                 pF[m] = (pF[m] & ~(mask << offs[m][j])) | (c05.enc_bits(e["dt"], e["len"], op["v"]) << offs[m][j])
@@ -229,12 +233,13 @@ def run_case(case) -> Outcome:
                     break
                 # typed values on the consumer side, through its own lookup path
                 for cm in range(len(maps)):
-                    if c_data[cm] is None or maps[cm]["layout"] != maps[m]["layout"] or c_data[cm] != want:
+                    if c_data[cm] is None or c_data[cm] != want or \
+                            [maps[cm]["layout"][x] for x in order[cm]] != [maps[m]["layout"][x] for x in order[m]]:
                         continue
                     F = int.from_bytes(want, "little")
                     for j, e in enumerate(maps[cm]["layout"]):
                         wantv = c05.field_value(e["dt"], e["len"], F, offs[cm][j])
-                        gotv = lookup(cons, cmaps[cm], cm, j, op.get("via", "pos")).raw
+                        gotv = lookup(cons, cmaps[cm], cm, j, op.get("via", "pos"), order[cm].index(j)).raw
                         if not c05.same(e["dt"], gotv, wantv):
                             bad("consumer-value", f"{tag}: consumer map {cm} field {j} "
                                                   f"({rc.NAMES[e['dt']]} len {e['len']} at bit {offs[cm][j]}) reads "
@@ -253,6 +258,28 @@ def run_case(case) -> Outcome:
                     if cmaps[m].enabled:
                         c_subscribed[m].add(op["cob"])
                 feats.add("reconfigured")
+            elif kind == "remap":
+                # the application re-maps the PDO on every node that shares the configuration: clear(), then
+                # the same objects in another order (doc/pdo: "tpdo[n].clear(); add_variable(...)")
+                k = op.get("rot", 1) % len(order[m])
+                order[m] = order[m][k:] + order[m][:k]
+                for pm in (pmaps[m], cmaps[m], mmaps[m]):
+                    pm.clear()
+                    for j in order[m]:
+                        e = maps[m]["layout"][j]
+                        pm.add_variable(0x2000 + 16 * m + j, 0, None if e["len"] == rc.width(e["dt"]) else e["len"])
+                o = 0
+                for j in order[m]:
+                    offs[m][j] = o
+                    o += maps[m]["layout"][j]["len"]
+                # add_variable() sizes the frame anew and zeroes it
+                pF[m] = 0
+                if c_data[m] is not None:
+                    c_data[m] = bytes(nbytes[m])
+                if m_data[m] is not None:
+                    m_data[m] = bytes(nbytes[m])
+                feats.add("remapped")
+                compare(tag)
             elif kind == "startstop":
                 # a map that was transmitting periodically for a while and has been stopped again
                 # receives like any other
@@ -336,7 +363,7 @@ def run_case(case) -> Outcome:
     for (fr, e) in port_c.notify_errors + port_p.notify_errors:
         if not D:
             bad("notify-raises", f"Network.notify raised {type(e).__name__}: {e} for {fr}")
-    nontrivial = len(maps) >= 2 and bool(feats & {"bitfield-reception", "colliding", "reconfigured"})
+    nontrivial = len(maps) >= 2 and bool(feats & {"bitfield-reception", "colliding", "reconfigured", "remapped"})
     return Outcome(nontrivial, f"maps{len(maps)}/" + "+".join(sorted(feats)) if feats else f"maps{len(maps)}/plain", D)
 
 
@@ -388,7 +415,7 @@ def case_strategy(draw):
     ops = []
     for _ in range(draw(st.integers(1, 16))):
         kind = draw(st.sampled_from(["write", "write", "transmit", "transmit", "raw", "reconfigure", "callback",
-                                     "rtr", "wait", "startstop"]))
+                                     "rtr", "wait", "startstop", "remap"]))
         m = draw(st.integers(0, nmaps - 1))
         if kind == "write":
             j = draw(st.integers(0, len(maps[m]["layout"]) - 1))
@@ -406,6 +433,8 @@ def case_strategy(draw):
         elif kind == "wait":
             ops.append({"op": "wait", "m": m, "deliver": draw(st.booleans()),
                         "data": draw(st.binary(min_size=8, max_size=8))})
+        elif kind == "remap":
+            ops.append({"op": "remap", "m": m, "rot": draw(st.integers(0, 7))})
         elif kind == "rtr":
             ops.append({"op": "rtr", "m": m, "who": draw(st.sampled_from(["cons", "cons", "mon"]))})
         elif kind == "callback" and draw(st.integers(0, 3)) == 0:
@@ -438,6 +467,15 @@ def enum_cases():
                    {"op": "raw", "id": 0x186, "data": b"\x11\x22\x33\x44\x55\x66\x77\x88"},
                    {"op": "wait", "m": 0, "deliver": True, "data": b"\x01\x02\x03\x04\x05\x06\x07\x08"},
                    {"op": "wait", "m": 1, "deliver": False, "data": b""}]}
+    # the same objects re-mapped in another order on all three nodes, variables looked up through every route
+    # before and after
+    for via in ("pos", "index", "name", "node_name", "node_map"):
+        for rot in (1, 2, 4):
+            w = [{"op": "write", "m": 0, "j": j, "v": v, "via": via} for j, v in ((0, 5), (1, -16), (2, -32768), (3, True))]
+            yield {"maps": [{"cob": 0x186, "layout": lay}, {"cob": 0x286, "layout": lay}],
+                   "ops": w + [{"op": "transmit", "m": 0, "via": via}, {"op": "remap", "m": 0, "rot": rot}] + w +
+                          [{"op": "transmit", "m": 0, "via": via}, {"op": "remap", "m": 0, "rot": 1}] + w[::-1] +
+                          [{"op": "transmit", "m": 0, "via": via}]}
     # a waiting reader and a callback that blocks for a moment
     for slow in (5, 20, 50):
         for ncb in (1, 2):
